@@ -197,6 +197,7 @@ def run(run, ix, tier):
     check_r3(run, ix, eng)
     # ---- A-R4 ------------------------------------------------------------------
     check_protocols(run, ix, eng)
+    check_manager_activations(run, ix)
     # ---- A-R6 ------------------------------------------------------------------
     check_setters(run, ix)
 
@@ -352,6 +353,75 @@ def check_protocols(run, ix, eng):
                              '; '.join(problems), line=f1.lineno))
         else:
             run.ok('A-R4', '%s %s.%s saves %s, %s restores it through .prec' % (rel, cls, m1, snap, m2))
+
+
+MANAGER_FACTORIES = ('workprec', 'workdps', 'extraprec', 'extradps', 'PrecisionManager')
+
+
+def check_manager_activations(run, ix):
+    """A-R4r: the snapshot of a precision manager lives in ONE slot on the manager object
+    (self.origp).  Entering the same object again before it was exited (recursion, two decorated
+    helpers sharing a manager) overwrites the slot and the outer exit restores the wrong
+    precision.  So every activation must use a manager object of its own: the item of every
+    `with` is a call that creates the manager (ctx.workprec(n), ...), never an object that
+    outlives the activation (self inside the manager's own decorator wrapper, an attribute, a
+    variable of an enclosing scope), and __enter__/__exit__ are not called by hand on such an
+    object."""
+    run.rule('A-R4r', floor=2, desc='one manager object per activation')
+    # names bound anywhere to a manager (long-lived handles)
+    handles = set()
+    for m in ix.modules.values():
+        for x in ast.walk(m.tree):
+            if isinstance(x, ast.Assign) and isinstance(x.value, ast.Call):
+                fn = x.value.func
+                nm = fn.attr if isinstance(fn, ast.Attribute) else fn.id if isinstance(fn, ast.Name) else ''
+                if nm in MANAGER_FACTORIES:
+                    for t in x.targets:
+                        # attribute slots and module-level names outlive an activation; a plain local
+                        # of the function that also enters it does not
+                        if isinstance(t, ast.Attribute) or isinstance(getattr(x, '_parent', None), ast.Module):
+                            handles.add(norm(t))
+    protocol_classes = set(cls for (rel, cls, m1, m2, why) in tables.A_PROTOCOL_PAIRS if m1 == '__enter__')
+    n = 0
+    for f in ix.all_funcs():
+        top = f
+        while top.parent is not None:
+            top = top.parent
+        in_manager_class = bool(top.cls and top.cls.split('.')[-1] in protocol_classes)
+        selfname = top.params[0] if (in_manager_class and top.params) else None
+        for x in _walk_own(f.node):
+            exprs = []
+            if isinstance(x, ast.With):
+                exprs = [(i.context_expr, 'entered with `with`') for i in x.items]
+            elif isinstance(x, ast.Call) and isinstance(x.func, ast.Attribute) and \
+                    x.func.attr in ('__enter__', '__exit__'):
+                exprs = [(x.func.value, 'driven by hand through %s()' % x.func.attr)]
+            for e, how in exprs:
+                n += 1
+                if isinstance(e, ast.Call):
+                    run.ok('A-R4r', '%s: `%s` creates its manager' % (f.qualname, norm(e, 50)) if n < 6 else None)
+                    continue
+                txt = norm(e)
+                shared = (selfname is not None and txt == selfname) or txt in handles or \
+                    isinstance(e, ast.Attribute)
+                if isinstance(e, ast.Name) and not shared:
+                    # a local created in this very function from a factory call is per activation
+                    local = [y for y in _walk_own(f.node) if isinstance(y, ast.Assign) and
+                             any(norm(t) == txt for t in y.targets)]
+                    if not local:
+                        shared = True        # comes from an enclosing scope / parameter
+                if shared:
+                    st = x
+                    while not isinstance(st, ast.stmt):
+                        st = st._parent
+                    run.fail(Finding('A-R4r', f.file, f.qualname, norm(st),
+                                     'the manager object `%s` is %s, but it is not created for this activation: '
+                                     'its saved precision is a single slot on the object, so a nested or '
+                                     'recursive entry overwrites it and the outer exit restores the raised '
+                                     'precision instead of the caller\'s' % (txt, how), line=st.lineno))
+                else:
+                    run.ok('A-R4r')
+    run.stats['manager_activations'] = n
 
 
 def _stmts_in_order(fnode):
